@@ -8,7 +8,9 @@ package main
 import (
 	"bufio"
 	"bytes"
+	"encoding/gob"
 	"encoding/json"
+	"encoding/xml"
 	"flag"
 	"fmt"
 	"net/http"
@@ -255,6 +257,32 @@ func run(toks []string) string {
 			if err := json.Unmarshal(rec.Body.Bytes(), &er); err == nil && er.Fault && er.Name != "" && er.ID != "" &&
 				strings.HasPrefix(rec.Header().Get("Content-Type"), "application/json") {
 				body = "ok"
+			}
+			// the same request as clients with an Accept header send it: the 404 must still carry a well-formed
+			// error body in the encoding the Content-Type announces
+			for _, accept := range []string{"application/json", "application/xml", "*/*", "text/plain, application/json",
+				"text/html,application/xhtml+xml,application/xml;q=0.9,*/*;q=0.8", "application/gob"} {
+				if body != "ok" {
+					break
+				}
+				req2, _ := readRequest(method, raw)
+				req2.Header.Set("Accept", accept)
+				rec2 := httptest.NewRecorder()
+				m.ServeHTTP(rec2, req2)
+				ct := rec2.Header().Get("Content-Type")
+				var er2 goahttp.ErrorResponse
+				okBody := false
+				switch {
+				case strings.HasPrefix(ct, "application/json"):
+					okBody = json.Unmarshal(rec2.Body.Bytes(), &er2) == nil && er2.Name != "" && er2.Fault
+				case strings.HasPrefix(ct, "application/xml"):
+					okBody = xml.Unmarshal(rec2.Body.Bytes(), &er2) == nil && er2.Name != ""
+				case strings.HasPrefix(ct, "application/gob"):
+					okBody = gob.NewDecoder(bytes.NewReader(rec2.Body.Bytes())).Decode(&er2) == nil && er2.Name != ""
+				}
+				if rec2.Code != http.StatusNotFound || !okBody {
+					body = "bad-with-accept:" + lp.Enc(accept)
+				}
 			}
 			return "status=404 body=" + body
 		}
